@@ -488,6 +488,39 @@ fn main() {
                     format!("after={} left={}", t.flag(), if left.is_empty() { "-".to_string() } else { left.join(";") })
                 })).unwrap_or("PANIC (perform_maintenance panicked)".into())
             }
+            // tmaint3 <n> (<first> <last> <unresolved 0|1>)*n <known-mask> <recreated-mask>: tablet i has two replicas (ids 1000+2i, 1001+2i) in one datacenter;
+            // bit r of a mask applies to the r-th replica of every tablet. Reports panic, and whether per-DC lists mirror the full lists / re-created replicas were swapped.
+            "tmaint3" => {
+                let n = num(1) as usize;
+                let (km, rm) = (num(2 + 3 * n), num(3 + 3 * n));
+                let mut t = vh::Tablets::new();
+                let (mut known, mut recreated): (Vec<u128>, Vec<u128>) = (Vec::new(), Vec::new());
+                for i in 0..n {
+                    let b = 2 + 3 * i;
+                    let ids = [1000 + 2 * i as u128, 1001 + 2 * i as u128];
+                    t.add_on_many(num(b) as i64, num(b + 1) as i64, &ids, num(b + 2) != 1);
+                    for r in 0..2 {
+                        if (km >> r) & 1 == 1 { known.push(ids[r]); }
+                        if (rm >> r) & 1 == 1 { recreated.push(ids[r]); }
+                    }
+                }
+                let before: Vec<_> = (0..t.len()).map(|i| (t.get(i).0, t.is_unresolved(i), t.replica_lists(i).0)).collect();
+                catch_unwind(std::panic::AssertUnwindSafe(|| {
+                    t.maintain(&[], &known, &recreated);
+                    let (mut mirror, mut swapped) = (true, true);
+                    for i in 0..t.len() {
+                        let (all, per_dc) = t.replica_lists(i);
+                        let flat: Vec<(u128, usize)> = per_dc.iter().flat_map(|(_, l)| l.iter().cloned()).collect();
+                        if flat != all { mirror = false; }
+                        if let Some((_, was_unresolved, old)) = before.iter().find(|(f, _, _)| *f == t.get(i).0) {
+                            for (k, (id, ptr)) in all.iter().enumerate() {
+                                if !*was_unresolved && recreated.contains(id) && old.get(k).map(|o| o.1) == Some(*ptr) { swapped = false; }
+                            }
+                        }
+                    }
+                    format!("left={} per_dc_mirrors_all={} recreated_swapped={}", t.len(), mirror, swapped)
+                })).unwrap_or("PANIC (perform_maintenance panicked)".into())
+            }
             "token_new" => Token::new(num(1) as i64).value().to_string(),
             _ => "UNKNOWN".to_string(),
         };
